@@ -100,6 +100,9 @@ func c13ProbePoint(c *fw.Ctx, e *Env, g *Gen) {
 		}
 		for _, x := range []lab.Acct{y, other} {
 			xs := x.Addr.String()
+			if r.Chance(35) { // the other valid spelling of the same account
+				xs = x.Upper()
+			}
 			add("PoRaise", x, &enttypes.MsgUndPurchaseOrder{Purchaser: xs, Amount: sdk.NewInt64Coin(obs.EntParams.Denom, 77)}, func(o *lab.Obs, who lab.Acct) bool { return true })
 			if len(obs.RaisedQ) > 0 {
 				add("PoDecide", x, &enttypes.MsgProcessUndPurchaseOrder{PurchaseOrderId: obs.RaisedQ[r.Intn(len(obs.RaisedQ))], Decision: enttypes.StatusRejected, Signer: xs}, isSigner)
@@ -152,9 +155,9 @@ func c13ProbePoint(c *fw.Ctx, e *Env, g *Gen) {
 		}
 		// parameter updates: authority named = the signer itself, or the gov module account
 		never := func(o *lab.Obs, who lab.Acct) bool { return false }
-		for _, auth := range []string{y.Addr.String(), lab.GovAuthority()} {
+		for _, auth := range []string{y.Addr.String(), y.Upper(), lab.GovAuthority(), strings.ToUpper(lab.GovAuthority())} {
 			named := y
-			if auth == lab.GovAuthority() {
+			if strings.EqualFold(auth, lab.GovAuthority()) {
 				named = lab.Acct{}
 			}
 			ep := obs.EntParams
